@@ -88,6 +88,9 @@ def gen(seed, index, tier):
         sc["torn"] = sorted(rng.random() for _ in range(rng.randrange(0, 4)))
         sc["stagger"] = [rng.choice([0.0, 0.0, 0.001, 0.01]) for _ in sc["clients"]]
         sc["policy"] = rng.choice(["random", "pct", "pct"])
+        if rng.random() < 0.4:
+            # the clients race on a cache file that is already damaged (and still fresh)
+            sc["predamage"] = rng.choice(["trunc", "trunc", "zero"])
     if kind == "zip":
         sc["handlers"] = "zip"
         sc["spec"] = spec + [{"p": (dname + "/" if dname else "") + "arc.zip", "k": "zip",
@@ -265,7 +268,7 @@ def _exec_cut(sc, root, refs, sel, tp):
                 counters["mutated_before_rewrite"] = 1
             refs = sc["_refs_after"]
             fk = {"crash": "crash", "enospc": "enospc", "enospc-close": "enospc_close"}[kind]
-            run.fs.faults.append(simfs.Fault("write", cacherel, fk, nth=0, cut=cut))
+            run.fs.faults.append(simfs.Fault("write", cacherel + "*", fk, nth=0, cut=cut))
             c2 = run.client(reqA, tls=tlsA)
             run.go()
             resps.append(bytes(c2.s2c))
@@ -407,11 +410,28 @@ def _exec_race(sc, root, refs, sel, tp):
         run.fs.watch_open = CACHEFILE
         if sc["torn"]:
             # cut points are fractions of whatever buffer is written
-            f = simfs.Fault("write", cacherel, "torn", nth="all")
+            f = simfs.Fault("write", cacherel + "*", "torn", nth="all")
             f.cuts = None
             f.fracs = sc["torn"]
             run.fs.faults.append(f)
         conns = []
+        if sc.get("predamage"):
+            req0, tls0 = proto.make_request(sc["protoA"], sel)
+            c0 = run.client(req0, tls=tls0)
+            run.go()
+            resps.append(bytes(c0.s2c))
+            cachepath = os.path.join(root, cacherel)
+            if not os.path.exists(cachepath):
+                raise sched.HarnessError("cache file was not written by the first listing")
+            size = os.path.getsize(cachepath)
+            with simfs.real_open(cachepath, "rb+") as f:
+                if sc["predamage"] == "trunc":
+                    f.truncate(common.cut_from_spec(sc["cut"], size))
+                else:
+                    f.write(b"\0" * size)
+            simfs.real_utime(cachepath, (run.sim.now, run.sim.now))
+            counters["stored_file_damaged"] = 1
+            run.advance(1.0)
         for pname, dly in zip(sc["clients"], sc["stagger"]):
             req, tls = proto.make_request(pname, sel)
             conns.append((pname, run.client(req, tls=tls, at=dly)))
